@@ -165,6 +165,10 @@ def handle (line : String) : String :=
         let rest := String.fromUTF8! (bytes.extract off bytes.size)
         let root := match hasRoot q with | .always => "always" | .sometimes => "sometimes" | .never => "never"
         s!"prefix={hexStr pre} post={hexStr rest.toList} tokens={q.dump} | pattern={hexStr (compilePattern q).toList} root={root}"
+  | ["FP", h] =>
+    match parse (unhex h) with
+    | .err _ => "err"
+    | .ok t => if !checkS t then "err" else cmdFP drvCasing t
   | ["C", h] =>
     match parse (unhex h) with
     | .err _ => "err"
